@@ -448,6 +448,12 @@ func (g *Gen) tryFamily(fam string) (op Op, ok bool) {
 }
 
 func (g *Gen) genFamily(fam string) (Op, bool) {
+	if g.big && (fam == "product" || fam == "assemble") {
+		// families whose results multiply the sizes of their operands take small operands only: a Repeat of a
+		// Concat of an outer product of large tensors needs gigabytes
+		g.big = false
+		defer func() { g.big = true }()
+	}
 	r := g.r
 	w := g.w
 	switch fam {
